@@ -44,7 +44,7 @@ ID = "C15"
 LEVEL = "fault_enumeration"
 RULE = (
     "Hypothesis-generated structural cases: 1-3 side-effect packages (every module body appends its dotted name to a sentinel file; "
-    "layouts regular/namespace/single module/source-less .pyc/garbage extension file; compiled decoys; stubs; alias and wildcard imports "
+    "layouts regular/namespace/single module/source-less .pyc/garbage extension file/zip archive on the search paths; requested by top-level name or dotted object path; compiled decoys; stubs; alias and wildcard imports "
     "into packages only reachable as alias targets) x loader options (submodules, resolve_aliases, resolve_implicit, resolve_external in "
     "{None,True,False}, find_stubs_package, store_source, try_relative_path, by name/path/sys.path; 1/6 of them committed to a scratch git "
     "repository and loaded through griffe.load_git(ref='HEAD', allow_inspection=False)) with inspection excluded, and fault "
@@ -110,13 +110,18 @@ def _plan(case, r, roots):
     how = case["how"]
     objspec: object = top
     source_layout = layout in ("pkg", "mod", "ns")
-    if target == "missing":
-        objspec = r["missing"]
+    if target in ("missing", "missing_dotted"):
+        objspec = r["missing"] + (".sub.C" if target == "missing_dotted" else "")
         how = "name" if how not in ("name", "syspath") else how
     elif layout != "pkg" and layout != "ns":
         # by-path loading is only generated for package directories: the finder derives a wrong top-level name for a
         # single-file module given by path (ModuleFinder._top_module_name returns the directory name; outside C15)
         how = "name" if how not in ("name", "syspath") else how
+        if target == "dotted":
+            # a dotted object path below a top-level name (module member; sub-module or its member inside an archive)
+            subs = [m["dotted"] for m in r["modules"][0] if m["dotted"] != top]
+            pick = case["opts"]["resolve_implicit"]  # any model bit: alternate between the two shapes
+            objspec = (subs[-1] + (".f" if pick else "")) if subs else (top + (".f" if pick else ".C"))
     elif target == "dotted" and opts["submodules"]:
         # an object inside the last reachable source module of the package
         cands = [m for m in r["modules"][0] if m.get("reachable", True)]
@@ -129,9 +134,10 @@ def _plan(case, r, roots):
             p = p / "__init__.py"
         objspec = str(p) if how == "pathstr" else p
         opts["try_relative_path"] = True
-    search_paths = None if how in ("syspath", "nosearch") else [str(x) for x in roots]
-    extra = [str(x) for x in roots] if how == "syspath" else []
-    expect_success = source_layout and target != "missing"
+    zip_paths = [str(z) for z in r.get("zip_paths", ())]  # archives are search-path entries of their own
+    search_paths = None if how in ("syspath", "nosearch") else [str(x) for x in roots] + zip_paths
+    extra = ([str(x) for x in roots] + zip_paths) if how == "syspath" else []
+    expect_success = source_layout and target not in ("missing", "missing_dotted")
     if case["kind"] == "static" and case.get("via") == "git":
         # the Git entry point: same tree, committed; search paths and Path objspecs are relative to the repository root
         if isinstance(objspec, Path):
@@ -139,7 +145,7 @@ def _plan(case, r, roots):
         elif isinstance(objspec, str) and "/" in objspec:
             objspec = top
         kw = {k: opts[k] for k in ("submodules", "resolve_aliases", "resolve_implicit", "resolve_external", "find_stubs_package")}
-        return objspec, {"search_paths": [x.name for x in roots], **kw}, [], expect_success
+        return objspec, {"search_paths": [x.name for x in roots] + [os.path.relpath(z, roots[0].parent) for z in zip_paths], **kw}, [], expect_success
     return objspec, {"search_paths": search_paths, **opts}, extra, expect_success
 
 
@@ -152,7 +158,7 @@ def _inspect_target(case, r, roots):
     for pi, mods in enumerate(r["modules"]):
         root = roots[case["pkgs"][pi].get("root", 0) % 2]
         for m in mods:
-            if m["kind"] in ("py", "mod") and m.get("reachable", True):
+            if m["kind"] in ("py", "mod") and m.get("reachable", True) and not m.get("inzip"):
                 cands.append((m, root))
     if not cands:
         return None
@@ -211,6 +217,7 @@ def check_case(case) -> list[Fail]:
     sentinel.write_text("")
     r = G.render(case, str(sentinel))
     G.write_tree(r["files"], roots)
+    r["zip_paths"] = G.write_zips(r["zips"], roots)
     names = r["names"]
     for pkg, name in zip(case["pkgs"], names):
         if pkg["layout"] == "ns":
